@@ -27,6 +27,11 @@ def scratch_copy():
 def apply_edits(dst, edits):
     """edits: [(relpath, old, new)] -- each `old` must occur exactly once. Returns None or reason."""
     for rel, old, new in edits:
+        if rel == "@patch":      # a unified diff (relative to the repository root), e.g. an independently written refactoring
+            r = subprocess.run(["patch", "-p1", "-s", "--no-backup-if-mismatch", "-i", old], cwd=dst, capture_output=True, text=True)
+            if r.returncode != 0:
+                return "patch %s does not apply: %s" % (os.path.basename(old), (r.stdout + r.stderr)[:200])
+            continue
         p = os.path.join(dst, rel)
         if not os.path.exists(p):
             return "file missing: " + rel
